@@ -28,6 +28,7 @@ from __future__ import annotations
 import logging
 import sys
 import typing
+import weakref
 
 import trio
 
@@ -87,6 +88,7 @@ class TrioEventLoop(EventLoop):
         self.logger = logging.getLogger(__name__).getChild(self.__class__.__name__)
 
         self._idle_handle = 0
+        self._cancelled_outside: weakref.WeakSet[trio.CancelScope] = weakref.WeakSet()  # removed while Trio was not running
         self._idle_callbacks: dict[int, Callable[[], typing.Any]] = {}
         self._pending_tasks: list[tuple[Callable[_Spec, Awaitable], trio.CancelScope, _Spec.args]] = []
 
@@ -162,7 +164,12 @@ class TrioEventLoop(EventLoop):
             True if the scope was cancelled, False if it was cancelled already
             before invoking this function
         """
-        existed = not scope.cancel_called
+        try:
+            existed = not scope.cancel_called
+        except RuntimeError:
+            # Trio is not running (the alarm or watch is removed before run()): no deadline can have expired
+            existed = scope not in self._cancelled_outside
+            self._cancelled_outside.add(scope)
         scope.cancel()
         return existed
 
